@@ -103,7 +103,7 @@ func (kd *keyDomains) of(f *ssa.Function, v ssa.Value, depth int) domSet {
 			g := engine.StaticFn(x.Common())
 			if g != nil && strings.HasPrefix(FK(g), engine.ModPrefix) && len(g.Blocks) > 0 && g.Signature.Results().Len() == 1 && isStringT(g.Signature.Results().At(0).Type()) {
 				n := 0
-				for _, b := range g.Blocks {
+				for _, b := range engine.BlocksInl(g) {
 					for _, in := range b.Instrs {
 						if rt, ok := in.(*ssa.Return); ok {
 							n++
@@ -155,7 +155,7 @@ func (kd *keyDomains) of(f *ssa.Function, v ssa.Value, depth int) domSet {
 		}
 		n := 0
 		for _, g := range kd.p.Scanned {
-			for _, b := range g.Blocks {
+			for _, b := range engine.BlocksInl(g) {
 				for _, in := range b.Instrs {
 					ci, ok := in.(ssa.CallInstruction)
 					if !ok || engine.StaticFn(ci.Common()) != pf || idx >= len(ci.Common().Args) {
@@ -195,7 +195,7 @@ func r08_1(r *Report, p *Program) {
 			continue
 		}
 		ok := false
-		for _, b := range f.Blocks {
+		for _, b := range engine.BlocksInl(f) {
 			for _, in := range b.Instrs {
 				switch x := in.(type) {
 				case *ssa.MapUpdate:
@@ -259,7 +259,7 @@ func r08_1(r *Report, p *Program) {
 			perMethod[m]++
 		}
 		n := 0
-		for _, b := range f.Blocks {
+		for _, b := range engine.BlocksInl(f) {
 			for _, in := range b.Instrs {
 				if lk, ok := in.(*ssa.Lookup); ok && strings.HasPrefix(lk.X.Type().String(), "map[string]*") && strings.HasSuffix(lk.X.Type().String(), "composite.parentRevision") {
 					nSites++
